@@ -132,7 +132,10 @@ def _classes():
     return {"simple": Graph, "digraph": DirectedGraph, "dag": DirectedGraph, "bipartite": BipartiteGraph}
 
 
-def build(gtype, n, r, edges):
+def build(gtype, n, r, edges, lazy=False):
+    if lazy:        # the complete bipartite graph as the class that stores no edge
+        from cnfgen.graphs import CompleteBipartiteGraph
+        return CompleteBipartiteGraph(n, r)
     cls = _classes()[gtype]
     G = cls(n, r) if gtype == "bipartite" else cls(n)
     for u, v in edges:
@@ -230,7 +233,7 @@ def run_roundtrip(job):
     text = None
     try:
         with quiet():
-            G = build(gtype, job["n"], job["r"], job["edges"])
+            G = build(gtype, job["n"], job["r"], job["edges"], job.get("lazy", False))
             if path == "stringio":
                 buf = io.StringIO()
                 writeGraph(G, buf, gtype, fmt)
@@ -351,6 +354,8 @@ def large_graphs(ck):
         L, R = rng.choice(((10, 3), (3, 11), (12, 12), (5, 9), (11, 2), (1, 13), (10, 10), (7, 7)))
         be = [[u, v] for u in range(1, L + 1) for v in range(1, R + 1) if rng.random() < p]
         out.append(("bipartite", L, R, be, "random10-14"))
+    for L, R in ((10, 3), (2, 11), (4, 4)):
+        out.append(("bipartite", L, R, [[u, v] for u in range(1, L + 1) for v in range(1, R + 1)], "random10-14"))
     return out
 
 
@@ -372,6 +377,10 @@ def roundtrip_jobs(ck, formats):
                 jobs.append({"id": rid, "type": gtype, "fmt": fmt, "path": path, "n": n, "r": r,
                              "edges": edges, "tag": tag})
                 ck.count("roundtrip_%s_%s" % (gtype, fmt))
+                if gtype == "bipartite" and len(edges) == n * r and path != "cli":
+                    jobs.append({"id": rid + "L", "type": gtype, "fmt": fmt, "path": path, "n": n, "r": r,
+                                 "edges": edges, "tag": tag, "lazy": True})
+                    ck.count("roundtrip_complete_bipartite_class_%s" % fmt)
     return jobs
 
 
